@@ -328,6 +328,23 @@ func (s *Session) Write(b []byte) (n int, err error) {
 		s.writeDeadline.Store(0)
 	}()
 
+	// A server packet session must queue the open session response before any
+	// data. The session is handed to Accept() as soon as the open session request
+	// is dispatched, so wait here until the input loop has processed that request.
+	// Otherwise data takes the sequence numbers in front of the response; with a
+	// full congestion window in front of it the response is never sent, the client
+	// (still opening) never acknowledges, and the session is abandoned.
+	if !s.isClient && s.transportProtocol == common.PacketTransport {
+		for s.isState(sessionAttached) {
+			select {
+			case <-s.closedChan:
+				return 0, io.ErrClosedPipe
+			default:
+			}
+			time.Sleep(backPressureDelay)
+		}
+	}
+
 	// Before the first write, client needs to send open session request.
 	// Open session request is sent only once. Underlay may retry if the packet is lost.
 	if s.isClient && s.isState(sessionAttached) && !s.openSessionRequestSent.Swap(true) {
